@@ -1713,8 +1713,10 @@ class Node:
         else:
             peer = usable_peers[0]
             self.logger.debug(f"Selected only available peer {peer.connection} for app {app}")
+        # the selection callback takes its time; meanwhile the connection may
+        # have been lost, or replaced by one that is still connecting
         conn = peer.connection
-        if conn is None:
+        if conn is None or conn.state not in PEER_READY_STATES:
             raise NotRoutable("The selected connection has gone away")
 
         if not message.header.hop_by_hop_identifier:
